@@ -74,7 +74,20 @@ CASES = [
      ("expect", ["(ext_local_get_version : L → String → Rs.M (Option Nat))", "let v ← ext_local_get_version self.«local» k"]), ("C", "f"),
      {"local.get_version": {"params": ["&str"], "ret": "Result<Option<u64>, Error>"}}),
     ("litfold", "fn f(x: u64) -> u64 { x << 8 * 7 }", ("expect", ["Rs.ushl 64 x 56"])),
+    ("entry2", "pub struct H { pub p: K2, pub v: u64 }\nfn f(hs: &[H]) -> BTreeMap<K2, u64> { let mut m = BTreeMap::new(); for h in hs { m.entry(h.p).and_modify(|e| *e += h.v).or_insert(h.v); } m }",
+     ("expect", ["match (Rs.omapGet m h.p) with", "| some e =>", "Rs.uadd Rs.U64_MAX e h.v", "Rs.omapInsert m h.p e", "Rs.omapInsert m h.p h.v"])),
+    ("entryloop", "fn f(a: BTreeMap<K2, u64>, b: BTreeMap<K2, u64>) -> BTreeMap<K2, u64> { let mut m = a; for (k, v) in b { m.entry(k).and_modify(|e| *e = max(*e, v)).or_insert(v); } m }",
+     ("expect", ["List.foldl", "(max e v)", "Rs.omapInsert m k v"])),
+    ("mapretain", "fn f(a: BTreeMap<K2, u64>, b: BTreeMap<K2, u64>) -> BTreeMap<K2, u64> { let mut m = a; m.retain(|k, _| b.contains_key(k)); m }",
+     ("expect", ["m.filter (fun (k, _) => (Rs.omapGet b k).isSome)"])),
+    ("lockcallee", "pub struct G { pub st: Mutex<S> }\nimpl G { fn bump(&self, x: u64) -> Result<(), ()> { let mut s = self.st.lock().unwrap(); if x == 0 { return Err(()); } s.a = x; Ok(()) }\n fn all(&self, xs: Vec<u64>) -> Result<(), ()> { for x in xs.into_iter() { self.bump(x)?; } Ok(()) } }",
+     ("expect", ["List.foldlM (fun self x => do", "let self ← G.bump self x"]), ("G", "all")),
+    ("vecunder", "fn f(v: &[u32]) -> usize { let w: Vec<_> = v.iter().map(|x| *x).collect(); w.len() }", ("expect", ["w.length"])),
     # ---- refused (fail closed)
+    ("r-entryloop-partial", "fn f(a: BTreeMap<K2, u64>, b: BTreeMap<K2, u64>) -> BTreeMap<K2, u64> { let mut m = a; for (k, v) in b { m.entry(k).and_modify(|e| *e += v).or_insert(v); } m }",
+     ("refuse", "order the model does not know")),
+    ("r-entryloop-otherkey", "fn f(a: BTreeMap<K2, u64>, b: BTreeMap<K2, K2>) -> BTreeMap<K2, u64> { let mut m = a; for (k, v) in b { m.entry(v).or_insert(0); } m }",
+     ("refuse", "order the model does not know")),
     ("r-guard-write", "pub struct G { pub st: Mutex<S> }\nimpl G { fn get(&self) -> MutexGuard<'_, S> { self.st.lock().expect(\"l\") }\n fn f(&self) { let mut s = self.get(); s.a = 1; } }",
      ("refuse", "write through the MutexGuard"), ("G", "f")),
     ("r-loop", "fn f() -> u32 { let mut i = 0u32; loop { i += 1; if i > 3 { break; } } i }", ("refuse", "`loop`")),
